@@ -154,6 +154,21 @@ func genC13(r *Rand, n int, thorough bool, emit func(string)) {
 	}
 	offsets := []int{0, 0, 0, 1000000000, -1000000000, 1000000000000, -1000000000000}
 	for i := 0; i < n; i++ {
+		if i%97 == 96 {
+			// a stepped block, then a long contiguous range (2049-6000 values) over it, either direction
+			a := r.Range(-50, 50)
+			ln := r.Range(2049, 6000)
+			st := r.Range(2, 12)
+			h := [][3]int{{a, a + r.Range(ln/2, ln+500), st}, {a + r.Range(-20, 20), a + ln, 1}}
+			if r.Bool() {
+				h[1] = [3]int{h[1][1], h[1][0], -1}
+			}
+			if r.Chance(1, 3) {
+				h = append(h, [3]int{a - 5, a + 5, 1})
+			}
+			emit(rngsOp(r, h))
+			continue
+		}
 		switch r.Intn(4) {
 		case 0: // small cube, mostly well signed
 			t := randTriple(r, 7)
@@ -388,6 +403,19 @@ func genFrameRanges(r *Rand, n int, thorough, multi bool, emit func(string)) {
 		rec(nil, 0)
 	}
 	for i := 0; i < n; i++ {
+		if i%499 == 498 {
+			// a stepped component, then a long contiguous one (2049-5000 frames) over it
+			a := r.Range(-40, 40)
+			ln := r.Range(2049, 5000)
+			st := r.Range(2, 12)
+			b := a + r.Range(ln/2, ln+300)
+			c, d := a+r.Range(-20, 20), a+ln
+			if r.Bool() {
+				c, d = d, c
+			}
+			emit(fsOp(r, fmt.Sprintf("%d-%dx%d,%d-%d", a, b, st, c, d), fmt.Sprintf("c:%d:%d:x:%d/r:%d:%d", a, b, st, c, d)))
+			continue
+		}
 		k := r.Range(1, 6)
 		if multi {
 			k = r.Range(2, 7)
